@@ -62,11 +62,19 @@ def units(tier):
     us += [(n, dict(k, tier=tier, riemann=True)) for n, k in rk.units('C03', ['eos'], tier)]
     us.append(('guderley', {'gud': True}))
     us.append(('sedov', {'sedov': True}))
+    us.append(('sdrz', {'sdrz': True}))
+    us += [('radshock/' + c_, {'radshock': c_}) for c_ in ('ED_Solver', 'nED_Solver', 'Sn_Solver', 'ie_Solver')]
     us.append(('ehep', {'ehep': True}))
     return us
 
 
-def run_unit(name, key=None, case=None, tier='quick', riemann=False, pat=None, fam=None, ehep=False, gud=False, sedov=False):
+def run_unit(name, key=None, case=None, tier='quick', riemann=False, pat=None, fam=None, ehep=False, gud=False, sedov=False, sdrz=False, radshock=None):
+    if radshock:
+        from props import c12
+        return c12.unit_eos(radshock)
+    if sdrz:
+        from props import sdrz_kit
+        return sdrz_kit.unit('C03')
     if sedov:
         from props import sedov_kit
         return sedov_kit.unit_eos()
